@@ -12,6 +12,7 @@ OB_FILES = ["Obligations.v", "ObligationsReply.v"]
 
 KEY_GRACE = "half-closed-tunnel-cut-after-grace-period"
 KEY_2XX_BODY = "upstream-connect-2xx-declares-body"
+KEY_READ_TIMEOUT = "tunnel-cut-at-request-read-timeout"
 
 
 def load_jsonl(p):
@@ -41,6 +42,8 @@ def classify(rec):
     if p["mode"] in ("uphttp", "uphttps") and p.get("reply_variant", 0) in (5, 6) and \
             (rec.get("overread_by_reply_reader") or rec.get("timeout") or not rec.get("reply")):
         return KEY_2XX_BODY
+    if p.get("read_timeout_ms") and (rec["dirs"][0]["eof_early"] or rec["dirs"][0]["recv_len"] != rec["dirs"][0]["sent_len"]):
+        return KEY_READ_TIMEOUT
     why = []
     for d, name in ((0, "client-to-target"), (1, "target-to-client")):
         o = rec["dirs"][d]
